@@ -699,6 +699,9 @@ pub struct Timing {
     /// the attempts before it have used theirs up)
     #[serde(default = "default_ct")]
     pub connect_timeout_ms: u64,
+    /// an overall timeout of 20 s is set as well (far away: it plays no part in the race)
+    #[serde(default)]
+    pub far_deadline: bool,
 }
 
 fn default_ct() -> u64 {
@@ -723,7 +726,13 @@ fn run_timing(t: &Timing) -> (Duration, String, Option<(String, String)>, bool) 
     list.push(peer.addr);
     attohttpc::verif::set_resolution("slow.test", Some(list.clone()));
     let t0 = Instant::now();
-    let res = guarded(|| attohttpc::get("http://slow.test:7777/").connect_timeout(Duration::from_millis(t.connect_timeout_ms)).read_timeout(Duration::from_secs(5)).send().and_then(|r| r.text()));
+    let res = guarded(|| {
+        let mut rb = attohttpc::get("http://slow.test:7777/").connect_timeout(Duration::from_millis(t.connect_timeout_ms)).read_timeout(Duration::from_secs(5));
+        if t.far_deadline {
+            rb = rb.timeout(Duration::from_secs(20));
+        }
+        rb.send().and_then(|r| r.text())
+    });
     let el = t0.elapsed();
     attohttpc::verif::set_resolution("slow.test", None);
     peer.stop.store(true, Ordering::SeqCst);
@@ -753,6 +762,38 @@ fn run_timing(t: &Timing) -> (Duration, String, Option<(String, String)>, bool) 
 //
 fn free_running_cells() -> Vec<(String, Option<(String, String)>)> {
     let mut out = Vec::new();
+    // the largest connect timeout ("no separate limit"): a refusing address ahead, or the only address
+    for (with_refusing, with_deadline) in [(false, false), (true, false), (true, true), (false, true)] {
+        let name = format!("connect-timeout-max:{}{}", if with_refusing { "refusing-then-accepting" } else { "one-accepting" }, if with_deadline { ":far-deadline" } else { "" });
+        let refusing = if with_refusing { bound_not_listening(true, 0) } else { None };
+        let peer = start_peer(0, Addr { v6: false, accepts: true }, 0);
+        let (Some(peer), true) = (peer, refusing.is_some() == with_refusing) else {
+            out.push((name, None));
+            continue;
+        };
+        let mut list: Vec<SocketAddr> = refusing.iter().map(|r| r.1).collect();
+        list.push(peer.addr);
+        attohttpc::verif::set_resolution("maxct.test", Some(list));
+        let t0 = Instant::now();
+        let res = guarded(|| {
+            let mut rb = attohttpc::get("http://maxct.test:7777/").connect_timeout(Duration::MAX).read_timeout(Duration::from_secs(5));
+            if with_deadline {
+                rb = rb.timeout(Duration::from_secs(20));
+            }
+            rb.send().and_then(|r| r.text())
+        });
+        let el = t0.elapsed();
+        attohttpc::verif::set_resolution("maxct.test", None);
+        peer.stop.store(true, Ordering::SeqCst);
+        let viol = match &res {
+            Ok(Ok(b)) if b == "L0" && el < Duration::from_secs(3) => None,
+            other => Some((
+                "reachable-address-not-used".to_string(),
+                format!("connect_timeout(Duration::MAX), {}: {} after {el:?}", if with_refusing { "a refusing address then an accepting one" } else { "one accepting address" }, format!("{other:?}").chars().take(160).collect::<String>()),
+            )),
+        };
+        out.push((name, viol));
+    }
     for k in [7usize, 8, 9, 12, 20] {
         for mixed in [false, true] {
             let name = format!("long-list:{k}-refusing-then-one-accepting:{}", if mixed { "both-families" } else { "v4" });
@@ -1003,22 +1044,28 @@ pub fn c17(ctx: &Ctx) -> Report {
     }
     // Part B (sequential: black holes are scarce kernel state, and timing matters)
     let timings: Vec<Timing> = vec![
-        Timing { holes: vec![], accepting_v6: false, connect_timeout_ms: 3000 },
-        Timing { holes: vec![false], accepting_v6: false, connect_timeout_ms: 3000 },
-        Timing { holes: vec![true], accepting_v6: false, connect_timeout_ms: 3000 },
-        Timing { holes: vec![false], accepting_v6: true, connect_timeout_ms: 3000 },
-        Timing { holes: vec![false, false], accepting_v6: false, connect_timeout_ms: 3000 },
-        Timing { holes: vec![true, false], accepting_v6: false, connect_timeout_ms: 3000 },
-        Timing { holes: vec![true, true], accepting_v6: true, connect_timeout_ms: 3000 },
-        Timing { holes: vec![false, false, false], accepting_v6: false, connect_timeout_ms: 3000 },
+        Timing { holes: vec![], accepting_v6: false, connect_timeout_ms: 3000, far_deadline: false },
+        Timing { holes: vec![false], accepting_v6: false, connect_timeout_ms: 3000, far_deadline: false },
+        Timing { holes: vec![true], accepting_v6: false, connect_timeout_ms: 3000, far_deadline: false },
+        Timing { holes: vec![false], accepting_v6: true, connect_timeout_ms: 3000, far_deadline: false },
+        Timing { holes: vec![false, false], accepting_v6: false, connect_timeout_ms: 3000, far_deadline: false },
+        Timing { holes: vec![true, false], accepting_v6: false, connect_timeout_ms: 3000, far_deadline: false },
+        Timing { holes: vec![true, true], accepting_v6: true, connect_timeout_ms: 3000, far_deadline: false },
+        Timing { holes: vec![false, false, false], accepting_v6: false, connect_timeout_ms: 3000, far_deadline: false },
         // more unresponsive addresses than any fixed number of attempts in flight
-        Timing { holes: vec![true, false, true, false], accepting_v6: true, connect_timeout_ms: 3000 },
-        Timing { holes: vec![false, false, false, false, false], accepting_v6: false, connect_timeout_ms: 4000 },
+        Timing { holes: vec![true, false, true, false], accepting_v6: true, connect_timeout_ms: 3000, far_deadline: false },
+        Timing { holes: vec![false, false, false, false, false], accepting_v6: false, connect_timeout_ms: 4000, far_deadline: false },
         // connect timeouts shorter than / comparable to the race interval: every attempt has its own
-        Timing { holes: vec![true], accepting_v6: false, connect_timeout_ms: 100 },
-        Timing { holes: vec![false], accepting_v6: false, connect_timeout_ms: 150 },
-        Timing { holes: vec![false, false], accepting_v6: false, connect_timeout_ms: 300 },
-        Timing { holes: vec![true, false, false], accepting_v6: false, connect_timeout_ms: 250 },
+        Timing { holes: vec![true], accepting_v6: false, connect_timeout_ms: 100, far_deadline: false },
+        Timing { holes: vec![false], accepting_v6: false, connect_timeout_ms: 150, far_deadline: false },
+        Timing { holes: vec![false, false], accepting_v6: false, connect_timeout_ms: 300, far_deadline: false },
+        Timing { holes: vec![true, false, false], accepting_v6: false, connect_timeout_ms: 250, far_deadline: false },
+        // the same with a far overall timeout set: an attempt that ran into its own connect timeout says
+        // nothing about the deadline
+        Timing { holes: vec![true], accepting_v6: false, connect_timeout_ms: 100, far_deadline: true },
+        Timing { holes: vec![false], accepting_v6: false, connect_timeout_ms: 150, far_deadline: true },
+        Timing { holes: vec![false, false], accepting_v6: false, connect_timeout_ms: 120, far_deadline: true },
+        Timing { holes: vec![true, false, false], accepting_v6: false, connect_timeout_ms: 250, far_deadline: true },
     ];
     let mut timing_run = 0u64;
     let mut timing_skipped = 0u64;
